@@ -206,6 +206,8 @@ impl Layer {
     }
 
     pub fn set_char(&mut self, pos: impl Into<Position>, attributed_char: AttributedChar) {
+        #[cfg(icy_engine_verif)]
+        crate::verif_hooks::tick(1);
         let pos = pos.into();
         if pos.x < 0 || pos.y < 0 || pos.x >= self.get_width() || pos.y >= self.get_height() {
             return;
